@@ -363,5 +363,5 @@ func extractC15(c *Ctx) error {
 		return fmt.Errorf("OutgoingTxBatchExecuted: BurnCoins call not recognised")
 	}
 	c.P("Definition burn_includes_tax : bool := %v.", burnFull)
-	return nil
+	return extractC15Gov(c)
 }
